@@ -304,6 +304,12 @@ func cmdCheck(args []string) {
 		"SMT solvers z3 5.1.0, z3 4.8.12, cvc5 1.0 (first definitive answer wins)"}
 	tb = append(tb, usedExternDocs()...)
 	tb = append(tb, trustedFns...)
+	var assumedAt []string
+	for k := range v.assumedAt {
+		assumedAt = append(assumedAt, "environment precondition (assume-at): "+k)
+	}
+	sort.Strings(assumedAt)
+	tb = append(tb, assumedAt...)
 	ev := map[string]interface{}{
 		"property_id": *prop,
 		"tier":        *tier,
